@@ -75,8 +75,17 @@ def _is_tag(n, opener):
 def count_token(nodes):
     """The regex(es) of the count token, found by role: the optional last part of  symbol [..]? {..}? count?
     (an ordered choice of regexes, or a single one) - not by variable name or by the number of alternatives."""
+    def flat(n_):
+        # the parts of a sequence, with nested sequences opened up (symbol + (isotope + ion) + count is the same production)
+        out = []
+        for e in n_.exprs:
+            if isinstance(e, peg.And):
+                out.extend(flat(e))
+            else:
+                out.append(e)
+        return out
     for n in find(nodes, peg.And):
-        ex = n.exprs
+        ex = flat(n)
         if len(ex) == 4 and isinstance(ex[0], peg.Regex) and ex[0].actions and _is_tag(ex[1], "[") and _is_tag(ex[2], "{") \
                 and isinstance(ex[3], peg.Optional):
             inner = ex[3].expr
@@ -174,23 +183,31 @@ def run(ctx):
     def is_tag(n, opener):
         return isinstance(n, peg.Optional) and isinstance(n.expr, peg.And) and any(
             isinstance(e, peg.Suppress) and isinstance(e.expr, peg.Literal) and e.expr.s == opener for e in n.expr.exprs)
+    def flat_seq(n_):
+        out = []
+        for e in n_.exprs:
+            out.extend(flat_seq(e) if isinstance(e, peg.And) else [e])
+        return out
     el = None
     for n in find(nodes, peg.And):
-        ex = n.exprs
+        ex = flat_seq(n)          # (nested sequences opened up: symbol + (isotope + ion) + count is the same production)
         if len(ex) == 4 and ex[0] is sym_nodes[0] and is_tag(ex[1], "[") and is_tag(ex[2], "{"):
-            el = n
+            el = ex
     ctx.check(el is not None, "R3", "element is symbol, optional isotope tag, optional ion tag, optional count - in that order",
               "no sequence symbol [..]? {..}? count? found in the grammar", site)
     if el is not None:
-        for nm, part in (("isotope tag", el.exprs[1]), ("ion tag", el.exprs[2]), ("count", el.exprs[3])):
+        for nm, part in (("isotope tag", el[1]), ("ion tag", el[2]), ("count", el[3])):
             inner = part.expr if isinstance(part, peg.Optional) else None
             first = inner.exprs[0] if isinstance(inner, peg.And) else None
             ctx.check(isinstance(first, peg.NotAny) and isinstance(first.expr, peg.White), "R3",
                       f"{nm} must follow without a blank (negative lookahead for whitespace)",
                       f"the {nm} may be separated from its atom by blanks, so it can bind to the wrong atom or swallow the next group's count", site)
             ctx.check(not part.skip, "R3", f"{nm} does not skip blanks before matching", f"{nm} skips leading blanks", site)
-        ctx.check(el.exprs[3].default == 1 and el.exprs[1].default in ("0", 0) and str(el.exprs[2].default) in ("0+", "0"), "R3",
-                  "absent tags default to count 1, no isotope, no charge", f"defaults {el.exprs[3].default!r}, {el.exprs[1].default!r}, {el.exprs[2].default!r}", site)
+        # absent tags: count 1, no isotope, no charge - observed on a bare symbol (what the optional parts hand on is internal)
+        bare = I.call(I.global_name("formulas", "formula"), ["Fe"], {"table": w.table})
+        ba = I.getattr(bare, "atoms")
+        ctx.check(isinstance(ba, dict) and len(ba) == 1 and next(iter(ba)) is w.element("Fe") and sp.sympify(next(iter(ba.values()))) == 1, "R3",
+                  "absent tags default to count 1, no isotope, no charge", f"'Fe' is read as {_s(ba)}", site)
     top = gram
     ends = isinstance(top, peg.And) and isinstance(top.exprs[-1], peg.StringEnd)
     ctx.check(ends, "R3", "the top-level rule ends with end-of-text", "trailing text is not rejected", site)
